@@ -9,7 +9,11 @@ Ltac Zify.zify_post_hook ::= Z.div_mod_to_equations.
 
 (* ---- facts about the dispatch that the handler theorems need, by sweeps over all first words ---- *)
 (* tags that never belong to a two-byte instruction: second-level tags and the four-byte branch / jump forms *)
-Definition is_second (t : tag) : bool := match t with TLogicL _ | TBcc16 _ | TJmpAbs | TBsr16 | TJsrAbs => true | _ => false end.
+Definition is_second (t : tag) : bool :=
+  match t with
+  | TLogicL _ | TBcc16 _ | TJmpAbs | TBsr16 | TJsrAbs
+  | TMovErn SL | TMovIncDec SL | TMovDisp16 _ | TMovAbs16 _ | TMovAbs24 _ | TMovDisp24 _ => true
+  | _ => false end.
 Definition two_byte_tag_ok (w : Z) : bool :=
   match decode_ref w 0 0 0 0 with
   | Some (_, len) => if len =? 2 then negb (is_prefix (select1 w)) && negb (is_second (select1 w)) else true
